@@ -2,7 +2,7 @@ From Clip Require Import base.Geom base.FloatModel base.CSem base.Dist base.Wind
   model.RectLeaf model.RectLines model.RectClip model.RectClipCheck.
 Require Import ExtrOcamlBasic ExtrOCamlFloats ExtrOCamlInt63.
 Extraction Language OCaml.
-Extraction "m.ml" rect_clip_t rect_clip rect_clip_snapped_t clip_stages clip_internal shortcut_of point_in_polygon path1_contains_path2
+Extraction "m.ml" rect_clip_t rect_clip rect_clip_paths rect_clip_snapped_t clip_stages clip_internal shortcut_of point_in_polygon path1_contains_path2
   GetLocation GetSegmentIntersection GetIntersection GetAdjacentLocation HeadingClockwise AreOpposites IsClockwise IsCollinear
   R64 RPath get_edges_for_pt is_heading_clockwise has_horz_overlap has_vert_overlap start_locs_are_clockwise get_bounds
   rect_is_empty rect_midpoint rect_contains_rect rect_intersects loc_idx loc_of_idx
